@@ -68,7 +68,16 @@ Definition mjsort (l : list A) : list A :=
 Definition upd (l : list A) (i : nat) (x : A) : list A :=
   firstn i l ++ x :: skipn (S i) l.
 
-(* _mjSIFT_DOWN(buf, root, end) with fuel (the loop runs at most log2(end) times) *)
+(* the choice of `swap` in one iteration of _mjSIFT_DOWN: vr = buf[root], vc = buf[child],
+   oc1 = Some buf[child+1] when child+1 < end.  Returns (swap, buf[swap]). *)
+Definition pick (vr vc : A) (root child : nat) (oc1 : option A) : nat * A :=
+  let s1 := if lt vr vc then (child, vc) else (root, vr) in
+  match oc1 with
+  | Some vc1 => if lt (snd s1) vc1 then (S child, vc1) else s1
+  | None => s1
+  end.
+
+(* _mjSIFT_DOWN(buf, root, end) with fuel (root at least doubles in every iteration) *)
 Fixpoint sift_down (fuel : nat) (buf : list A) (root endi : nat) : list A :=
   match fuel with
   | O => buf
@@ -77,20 +86,10 @@ Fixpoint sift_down (fuel : nat) (buf : list A) (root endi : nat) : list A :=
     if Nat.ltb child endi then
       match nth_error buf root, nth_error buf child with
       | Some vr, Some vc =>
-        let swap := if lt vr vc then child else root in
-        let vs := if lt vr vc then vc else vr in
-        let swap2 :=
-          if Nat.ltb (child + 1) endi then
-            match nth_error buf (child + 1) with
-            | Some vc1 => if lt vs vc1 then (child + 1)%nat else swap
-            | None => swap
-            end
-          else swap in
-        if Nat.eqb swap2 root then buf
-        else match nth_error buf swap2 with
-             | Some vsw => sift_down f (upd (upd buf root vsw) swap2 vr) swap2 endi
-             | None => buf
-             end
+        let oc1 := if Nat.ltb (S child) endi then nth_error buf (S child) else None in
+        let sv := pick vr vc root child oc1 in
+        if Nat.eqb (fst sv) root then buf
+        else sift_down f (upd (upd buf root (snd sv)) (fst sv) vr) (fst sv) endi
       | _, _ => buf
       end
     else buf
